@@ -12,6 +12,10 @@ from seams.net import Kernel, SimNode, Shims, EPOCH
 from seams.bots import Bot
 
 
+class WorldNotBuilt(Exception):
+    pass
+
+
 class NodeWorld:
     def __init__(self, script, prop, res: Result, n_bots=3, file_store=False, trace_keep=0, profile=None):
         env.setup()
@@ -43,7 +47,15 @@ class NodeWorld:
         for i in range(n_bots):
             b = Bot(self.k, 'bot%d' % i, '10.0.1.%d' % (i + 1), {'my_port': 0})
             self.bots.append(b)
-        self.node.boot(self.sim.cs, peers=[])
+        try:
+            self.node.boot(self.sim.cs, peers=[])
+        except Exception as e:
+            # the store (code under test) refuses the valid chain the node starts with: nothing can be judged in this world
+            # (C08 decides what the store must take); no run is wasted on a harness error
+            res.bump('world_not_built_store_refused_starting_chain:%s' % type(e).__name__)
+            self.sim.dead = True
+            self.shims.uninstall()
+            raise WorldNotBuilt(str(e))
         for b in self.bots:
             b.connect(('10.0.0.1', 2412))
         self.settle(3000)
